@@ -174,7 +174,9 @@ func (f *Fn) singleDefIdx(o *types.Var) (ast.Expr, int) {
 	defIdx := -1
 	count := 0
 	var scope ast.Node = f.Body
-	if f.Src != nil && f.Src.Decl.Body != nil {
+	if f.Scope != nil {
+		scope = f.Scope
+	} else if f.Src != nil && f.Src.Decl.Body != nil {
 		scope = f.Src.Decl.Body
 	}
 	ast.Inspect(scope, func(n ast.Node) bool {
@@ -388,10 +390,18 @@ func (f *Fn) predHelper(e ast.Expr) (*Fn, ast.Expr) {
 		return nil, nil
 	}
 	src := f.P.Src(fn)
-	if src == nil || src.Decl.Body == nil || len(src.Decl.Body.List) != 1 {
+	if src == nil || src.Decl.Body == nil || len(src.Decl.Body.List) == 0 || len(src.Decl.Body.List) > 4 {
 		return nil, nil
 	}
-	ret, ok := src.Decl.Body.List[0].(*ast.ReturnStmt)
+	// shape: zero or more `x := expr` definitions, then `return <boolean expression>`
+	last := len(src.Decl.Body.List) - 1
+	for _, st := range src.Decl.Body.List[:last] {
+		as, ok := st.(*ast.AssignStmt)
+		if !ok || as.Tok != token.DEFINE || len(as.Lhs) != len(as.Rhs) {
+			return nil, nil
+		}
+	}
+	ret, ok := src.Decl.Body.List[last].(*ast.ReturnStmt)
 	if !ok || len(ret.Results) != 1 {
 		return nil, nil
 	}
